@@ -11,7 +11,7 @@ from __future__ import annotations
 
 import ast
 
-from .loader import FuncInfo, norm, own_nodes, parent
+from .loader import FuncInfo, tnorm as norm, own_nodes, parent
 
 
 def local_defs(fi: FuncInfo) -> dict[str, ast.expr]:
